@@ -141,6 +141,9 @@ func NewWithDuration(workers, maxWorkers uint64, maxFirst bool, du time.Duration
 		c.tgtCalls++
 		if c.failMode {
 			c.tgtErrored++
+			if c.tgtCalls%2 == 0 {
+				return vegeta.ErrNoTargets // what the file-backed targeters return at the end of their input
+			}
 			return fmt.Errorf("verif: targeter failure")
 		}
 		t.Method = "GET"
